@@ -104,6 +104,11 @@ CLAIMED = {
             'templates, pooled covariance, pseudo-inverse and static / DPA scores of the real attacks (several batch sizes, both precisions, class lists with gaps) equal the exact rationals; '
             'run before build refused.',
             'Trace length <= 2 (exact pseudo-inverse); covariance/scores claimed when every declared class has >= 2 building traces; building sets are sampled, not enumerated.', '6/C14'),
+    'C17': ('TLA+ pipeline specification (PipelineAES.tla, PipelineDES.tla on top of the selection-function theorem of C07 and the FIPS key schedules): intermediate under the true key, leakage model, bounded noise, '
+            'trace matrix and identifiability of the true key among the offered guesses, all computed / checked by TLC; the emitted traces are attacked through the public Container / selection function / model / discriminant / Attack pipeline',
+            'For each key x selection function x attack class x batch size TLC emits the simulated traces and proves that no wrong guess is indistinguishable from the true key on that input set; CPA, DPA, ANOVA, NICV, SNR, MIA and '
+            'template-DPA must give their unique highest score, for every attacked word, to the guess equal to the specification key word, which must also be what compute_expected_key returns.',
+            'Keys sampled; ciphertexts for last-round functions from scared encrypt (C05/C06); fixed wide margin (signal step 4, noise amplitude 1); AddRoundKey targets only with the signed CPA discriminant.', '6/C17'),
     'C18': ('TLA+ definitions of the documented pair lists and operators on dyadic numbers, first-order formulas, time-domain circular cross-correlation and the DFT over Gaussian integers '
             '(Preprocess.tla, PreprocessCases.tla) evaluated by TLC for every offered configuration; executed on the real preprocess classes',
             'TLC checks for every configuration that the pair list has no duplicate and the documented length and computes exact output rows (values up to 2^62 as m*2^e); every frame form x frame_2 x mode x '
